@@ -24,8 +24,10 @@ pub struct X(pub u32);
 fn keep<T>(_t: T) {}
 """
 
-PAYLOAD = {"plain": "pub struct P(pub u32);", "notsync": "pub struct P(pub Cell<u32>);", "notsend": "pub struct P(pub Rc<u32>);"}
-PNEW = {"plain": "P(1)", "notsync": "P(Cell::new(1))", "notsend": "P(Rc::new(1))"}
+PAYLOAD = {"plain": "pub struct P(pub u32);", "notsync": "pub struct P(pub Cell<u32>);", "notsend": "pub struct P(pub Rc<u32>);",
+           # Sync but not Send: a value owning a lock guard
+           "syncnotsend": "static M: std::sync::Mutex<u32> = std::sync::Mutex::new(1);\npub struct P(pub std::sync::MutexGuard<'static, u32>);"}
+PNEW = {"plain": "P(1)", "notsync": "P(Cell::new(1))", "notsend": "P(Rc::new(1))", "syncnotsend": "P(M.lock().unwrap())"}
 
 
 def v(kind, ty, lt=""):
@@ -117,6 +119,10 @@ def source(tok):
             body = f"let mut w = World::<Registry!(P)>::new(); w.insert(entity!({new})); let it = w.query(Query::<Views!(&P)>::new()).iter; std::thread::scope(|s| {{ s.spawn(move || {{ for result!(p) in it {{ keep(p); }} }}); }});"
         elif c == "entries_send":
             body = f"let mut w = World::<Registry!(P)>::new(); let id = w.insert(entity!({new})); let r = w.query(Query::<Views!(), filter::None, Views!(), Views!(&P)>::new()); let mut en = r.entries; std::thread::scope(|s| {{ s.spawn(move || {{ if let Some(mut e) = en.entry(id) {{ keep(e.query(Query::<Views!(&P)>::new())); }} }}); }});"
+        elif c == "iter_send_mut":
+            body = f"let mut w = World::<Registry!(P)>::new(); w.insert(entity!({new})); let it = w.query(Query::<Views!(&mut P)>::new()).iter; std::thread::scope(|s| {{ s.spawn(move || {{ for result!(p) in it {{ keep(p); }} }}); }});"
+        elif c == "entries_send_mut":
+            body = f"let mut w = World::<Registry!(P)>::new(); let id = w.insert(entity!({new})); let r = w.query(Query::<Views!(), filter::None, Views!(), Views!(&mut P)>::new()); let mut en = r.entries; std::thread::scope(|s| {{ s.spawn(move || {{ if let Some(mut e) = en.entry(id) {{ keep(e.query(Query::<Views!(&mut P)>::new())); }} }}); }});"
         elif c == "entries_sync":
             body = f"let mut w = World::<Registry!(P)>::new(); let id = w.insert(entity!({new})); let r = w.query(Query::<Views!(), filter::None, Views!(), Views!(&P)>::new()); let en = r.entries; let er = &en; std::thread::scope(|s| {{ s.spawn(move || {{ keep(er); }}); }});"
         elif c == "par_ref":
